@@ -774,6 +774,13 @@ class LibMixin:
                     return z3.Empty(SeqU)
                 units = [z3.Unit(box(x)) for x in rest]
                 return units[0] if len(units) == 1 else z3.Concat(*units)
+            if isinstance(h, HDict) and h.present is not None and not h.items:
+                # the keys of a dict with unknown contents: an uninterpreted sequence (per dict and
+                # world) of keys that are present
+                seq = z3.Function("dict_keys", I, I, SeqU)(z3.IntVal(v.addr), z3.IntVal(st.world))
+                i = z3.Int("k!dictkeys")
+                st.assume(z3.ForAll([i], z3.Implies(z3.And(i >= 0, i < z3.Length(seq)), z3.Select(h.present, seq[i]))))
+                return seq
         return None
 
     # ---------------------------------------------------------------- subscripts
